@@ -1,3 +1,165 @@
+// procdriver: scripted driver around the exported procedures of package stgutg (level
+// L-proc of DESIGN.md 2.3). It runs as a child process of the test, so that os.Exit or a
+// panic inside a procedure is an observable outcome of the case instead of the death of
+// the test runner.
+//
+// stdin: one JSON document {"ops":[{"op":...}, ...]}. The association with the reference
+// AMF is file descriptor 3 (an AF_UNIX SOCK_SEQPACKET socket), adopted with
+// sctp.NewSCTPConn(3, nil). For every operation one line "@@PD {json}" is written to
+// stdout when the procedure has returned; library code also prints to stdout, so result
+// lines always start on a fresh line.
+//
+//	ngsetup    {gnb_id (hex), imsi, mnc, bitlength, name}
+//	create     {i, imsi, k, opc, op}                 → supi, ran_id
+//	register   {i, mnc, mcc}                         → amf_id, ul_count, nas (hex), ngap_present
+//	establish  {i, sst, sd, gnb_gtp}                 → ip, teid, upf
+//	service    {i, gnb_gtp}                          → nas (hex)
+//	release    {i, sst, sd}                          → nas (hex)
+//	deregister {i, mnc}
+//	config     {dir}      chdir + Conf.GetConfiguration() → every field (strings as hex)
+//	mode                  GetMode(os.Args) with the real argument vector of this process
+//	encodesuci {imsi, mnc_len}                       → buffer (hex)
 package main
 
-func main() {}
+import (
+	"encoding/hex"
+	"encoding/json"
+	"fmt"
+	"io"
+	"os"
+	"reflect"
+
+	"github.com/ishidawataru/sctp"
+
+	"stgutg"
+	"tglib"
+)
+
+type op struct {
+	Op        string `json:"op"`
+	I         int    `json:"i"`
+	GnbID     string `json:"gnb_id"`
+	IMSI      string `json:"imsi"`
+	MNC       string `json:"mnc"`
+	MCC       string `json:"mcc"`
+	BitLength uint64 `json:"bitlength"`
+	Name      string `json:"name"`
+	K         string `json:"k"`
+	OPC       string `json:"opc"`
+	OP        string `json:"op_key"`
+	SST       int32  `json:"sst"`
+	SD        string `json:"sd"`
+	GnbGTP    string `json:"gnb_gtp"`
+	Dir       string `json:"dir"`
+	MNCLen    int    `json:"mnc_len"`
+}
+
+func emit(v map[string]interface{}) {
+	b, _ := json.Marshal(v)
+	fmt.Printf("\n@@PD %s\n", b)
+	os.Stdout.Sync()
+}
+
+func main() {
+	in, err := io.ReadAll(os.Stdin)
+	if err != nil {
+		fmt.Println("procdriver: stdin:", err)
+		os.Exit(90)
+	}
+	var script struct {
+		Ops []op `json:"ops"`
+	}
+	if err := json.Unmarshal(in, &script); err != nil {
+		fmt.Println("procdriver: script:", err)
+		os.Exit(90)
+	}
+	var conn *sctp.SCTPConn
+	needConn := func() *sctp.SCTPConn {
+		if conn == nil {
+			conn = sctp.NewSCTPConn(3, nil)
+		}
+		return conn
+	}
+	ues := map[int]*tglib.RanUeContext{}
+	regPdu := map[int][]byte{}
+	for n, o := range script.Ops {
+		res := map[string]interface{}{"n": n, "op": o.Op, "i": o.I}
+		switch o.Op {
+		case "ngsetup":
+			id, err := hex.DecodeString(o.GnbID)
+			if err != nil {
+				fmt.Println("procdriver: gnb_id:", err)
+				os.Exit(90)
+			}
+			stgutg.ManageNGSetup(needConn(), string(id), o.IMSI, o.MNC, o.BitLength, o.Name)
+		case "create":
+			ue := stgutg.CreateUE(o.IMSI, o.I, o.K, o.OPC, o.OP)
+			ues[o.I] = ue
+			res["supi"] = ue.Supi
+			res["ran_id"] = ue.RanUeNgapId
+		case "register":
+			ue, pdu, ngapPdu := stgutg.RegisterUE(ues[o.I], o.MNC, o.MCC, needConn())
+			ues[o.I] = ue
+			regPdu[o.I] = pdu
+			res["amf_id"] = ue.AmfUeNgapId
+			res["ul_count"] = ue.ULCount.Get()
+			res["nas"] = hex.EncodeToString(pdu)
+			if ngapPdu != nil {
+				res["ngap_present"] = ngapPdu.Present
+			}
+		case "establish":
+			ip, teid, upf := stgutg.EstablishPDU(o.SST, o.SD, ues[o.I], needConn(), o.GnbGTP)
+			res["ip"] = hex.EncodeToString(ip)
+			res["teid"] = teid
+			res["upf"] = hex.EncodeToString(upf)
+		case "service":
+			pdu := stgutg.ServiceRequest(regPdu[o.I], ues[o.I], needConn(), o.GnbGTP)
+			res["nas"] = hex.EncodeToString(pdu)
+		case "release":
+			pdu := stgutg.ReleasePDU(o.SST, o.SD, ues[o.I], needConn())
+			res["nas"] = hex.EncodeToString(pdu)
+		case "deregister":
+			stgutg.DeregisterUE(ues[o.I], o.MNC, needConn())
+		case "config":
+			if err := os.Chdir(o.Dir); err != nil {
+				fmt.Println("procdriver: chdir:", err)
+				os.Exit(90)
+			}
+			var c stgutg.Conf
+			c.GetConfiguration()
+			v := reflect.ValueOf(c.Configuration)
+			fields := map[string]interface{}{}
+			for i := 0; i < v.NumField(); i++ {
+				f := v.Field(i)
+				name := v.Type().Field(i).Name
+				switch f.Kind() {
+				case reflect.String:
+					fields[name] = map[string]interface{}{"s": hex.EncodeToString([]byte(f.String()))}
+				case reflect.Int, reflect.Int32, reflect.Int64:
+					fields[name] = map[string]interface{}{"i": fmt.Sprint(f.Int())}
+				case reflect.Uint, reflect.Uint32, reflect.Uint64:
+					fields[name] = map[string]interface{}{"u": fmt.Sprint(f.Uint())}
+				default:
+					fields[name] = map[string]interface{}{"other": fmt.Sprint(f.Interface())}
+				}
+			}
+			res["fields"] = fields
+		case "mode":
+			res["mode"] = stgutg.GetMode(os.Args)
+			res["argv"] = os.Args[1:]
+		case "encodesuci":
+			m := stgutg.EncodeSuci([]byte(o.IMSI), o.MNCLen)
+			res["buffer"] = hex.EncodeToString(m.Buffer)
+			res["len"] = m.Len
+		case "close":
+			if conn != nil {
+				conn.Close()
+			}
+		default:
+			fmt.Println("procdriver: unknown op", o.Op)
+			os.Exit(90)
+		}
+		emit(res)
+	}
+	emit(map[string]interface{}{"op": "end"})
+}
